@@ -293,3 +293,24 @@ Proof.
       inversion Hall; subst. assumption.
     + exact Hj.
 Qed.
+
+(* ---------------------------------------------------------------- no empty line, no empty chain *)
+(* the origin default of lfirst/llast is never used: every chain is non-empty and every line in
+   it is non-empty (and inside the loop every remaining segment has >= 2 points: [consP]) *)
+Theorem join_lines_nonempty : forall segments chains, join segments = JoinOk chains ->
+  Forall (fun ms => ms <> [] /\ Forall (fun s => seg_line s <> []) ms) chains.
+Proof.
+  intros segments chains Hj. destruct (join_conserves _ _ Hj) as (obss & HF & _).
+  clear Hj. induction HF as [|obs ms obss chains Hc HF IH]; constructor; [|exact IH].
+  split; [apply (chain_rel_nonempty _ _ Hc)|].
+  destruct (chain_rel_explicit _ _ Hc) as ((pre & seed & post & -> & ->) & _ & Hall).
+  apply Forall_app in Hall. destruct Hall as [Hpre Hall]. inversion Hall as [|x y Hseed Hpost]; subst.
+  assert (Htrim : forall l : line, (2 <= length l)%nat -> tl l <> [] /\ removelast l <> []).
+  { intros [|a [|b l]] H; simpl in H; try lia. split; discriminate. }
+  apply Forall_app. split; [|constructor].
+  - apply Forall_map. eapply Forall_impl; [|exact Hpre]. intros ob Hl.
+    apply (Htrim _ (len2_orient ob Hl)).
+  - apply len2_ne. apply len2_orient. exact Hseed.
+  - apply Forall_map. eapply Forall_impl; [|exact Hpost]. intros ob Hl.
+    apply (Htrim _ (len2_orient ob Hl)).
+Qed.
